@@ -1135,3 +1135,62 @@ def op_c17(case):
         except BaseException as e:  # noqa: BLE001
             res.append({"st": "error:" + type(e).__name__, "end": 0, "val": [], "msg": str(e)[:200]})
     return {"build": "ok", "results": res}
+
+
+# ---------------------------------------------------------------------------------------------
+# C18: work counters through a counting Tokenizer subclass (public constructor)
+# ---------------------------------------------------------------------------------------------
+def op_c18(case):
+    from peg_parser.tokenizer import Tokenizer
+
+    class Counting(Tokenizer):
+        n_get = n_peek = n_reset = 0
+
+        def getnext(self):
+            self.n_get += 1
+            return super().getnext()
+
+        def peek(self):
+            self.n_peek += 1
+            return super().peek()
+
+        def reset(self, index):
+            self.n_reset += 1
+            return super().reset(index)
+
+    sys.setrecursionlimit(50000)
+    out = []
+    budget = case.get("budget", 3_000_000)
+    for src in case["srcs"]:
+        ntok = None
+        try:
+            ntok = sum(1 for t in T().generate_tokens(src) if t.type.name not in ("WS", "NL", "COMMENT"))
+        except BaseException:  # noqa: BLE001
+            pass
+        tk = Counting(T().generate_tokens(io.StringIO(src).readline))
+
+        class Stop(BaseException):
+            pass
+
+        def guard(orig=tk.peek):
+            pass
+
+        p = P()(tk)
+        arm()
+        outcome = "tree"
+        try:
+            import threading
+
+            threading.stack_size(256 * 1024 * 1024)
+            p.parse("file")
+        except HangTimeout:
+            outcome = "timeout"
+        except RecursionError:
+            outcome = "recursion"
+        except BaseException as e:  # noqa: BLE001
+            outcome = "exc:" + type(e).__name__
+        out.append({"tokens": ntok if ntok is not None else len(tk._tokens), "work": tk.n_get + tk.n_peek + tk.n_reset, "outcome": outcome})
+        if out[-1]["work"] > budget or outcome == "timeout":
+            break  # larger sizes of a family that already exploded are not run
+    sys.setrecursionlimit(1000)
+    return {"series": out}
